@@ -194,6 +194,16 @@ def site_program(site, payloads):
             cont += [f"function f{i}() result({n})", f"integer(kind={pl}) :: {n}", f"{n} = 0", f"end function f{i}"]
             checks.append([(f"proc/f{i}.html", f"variable-{n}", f"integer(kind={pl})", "integer", f"integer(kind={pl})"),
                            ("module/cm.html", f"variable-{n}", f"integer(kind={pl})", "integer", f"integer(kind={pl})")])
+        elif site == "charlen-arg":
+            # payload = what follows the entity name: array spec and / or character length, F77 style included
+            cont += [f"subroutine s{i}({n})", f"character, intent(in) :: {n}{pl}", f"end subroutine s{i}"]
+            checks.append((f"proc/s{i}.html", f"variable-{n}", f"{n}{pl}", "character"))
+        elif site == "charlen-module":
+            decl.append(f"character :: {n}{pl}")
+            checks.append(("module/cm.html", f"variable-{n}", f"{n}{pl}", "character"))
+        elif site == "charlen-component":
+            types += [f"type t{i}", f"character :: {n}{pl}", f"end type t{i}"]
+            checks.append((f"type/t{i}.html", f"variable-{n}", f"{n}{pl}", "character"))
         elif site == "initial-array2":
             # two literals in one initial value: the second must be shown too
             decl.append(f"character(len=*), parameter :: {n}(2) = [{L}, 'second<i>{i}']")
@@ -231,6 +241,8 @@ EXPR_SITES = ["expr-dim-result", "expr-dim-arg", "expr-dim-module", "expr-dim-co
 EXPRS = ["nn", "nn/2", "(nn+1)/2", "2*nn/3", "nn/2/2", "max(nn/2, 1)", "nn**2", "nn-1", "2:nn", "-1:nn/2", "nn, nn/2", "0:nn-1, 2", "size([1, 2])", "8/2", "nn*2/4"]
 RELATIONAL = ["1 < 2", "1 > 2", "1 <= 2", "1 >= 2", "1 == 2", "1 /= 2", "1 .lt. 2", "1 < 2 .and. 3 >= 2", "(1 <= 2) .or. (3 == 4)", "2 > 1 .and. 1 /= 0",
               "selected_real_kind(6, 30) > 0", "iand(1, 2) == 0", "[1, 2] == [1, 3]", "'a' < 'b'", "1.0_8 >= 2.0_8"]
+CHARLEN_SITES = ["charlen-arg", "charlen-module", "charlen-component"]
+CHARLEN = ["*4", "*(nn)", "*(2*nn)", "*(nn/2)", "(3)*2", "(nn)*(nn/2)", "(2, nn)*4", "(3)", "*(*)", "(nn)*(*)"]
 KINDEXPR = ["selected_real_kind(6, 30)", "selected_int_kind(9)", "kind(1.0d0)", "max(4, 8)", "c_int"]
 
 
@@ -325,6 +337,8 @@ def work(job):
     neutral = "x" if site not in ("relational",) else "1 .eqv. 2"
     if site in EXPR_SITES:
         neutral = "4"
+    if site in CHARLEN_SITES:
+        neutral = None
     if site in ("binding-target", "proc-prefix"):
         neutral = None
     if site == "kind-expr-fn":
@@ -400,6 +414,8 @@ def main(tier, replay_path=None):
     for es in EXPR_SITES:
         # a kind selector is one scalar expression
         jobs.append((es, [e for e in EXPRS if es != "expr-kind-result" or (":" not in e and ", " not in e.replace("(nn/2, 1)", "").replace("[1, 2]", ""))]))
+    for cs in CHARLEN_SITES:
+        jobs.append((cs, [c for c in CHARLEN if cs == "charlen-arg" or "(*)" not in c]))
     jobs.append(("binding-target", [f"impl_{c}" for c in "abcdefgh"]))
     jobs.append(("proc-prefix", PREFIXES))
     k = core.SEED % 5
@@ -410,7 +426,7 @@ def main(tier, replay_path=None):
     return core.finish(
         PROP, tier, "model_checking", total, t0,
         rule=(f"all sequences of <= {2 if tier == 'quick' else 3} symbols over {len(SYMS)} HTML/Markdown-significant pieces ({len(pls)} literals) x {len(SITES)} declaration sites "
-              f"(batched {BATCH} declarations per site build) + {len(RELATIONAL)} relational expressions + {len(EXPRS)} bound/kind expressions x {len(EXPR_SITES)} sites (module variable, component, argument, function result); transitions = declarations checked on their page; states = distinct row structures"),
+              f"(batched {BATCH} declarations per site build) + {len(RELATIONAL)} relational expressions + {len(EXPRS)} bound/kind expressions x {len(EXPR_SITES)} sites (module variable, component, argument, function result) + {len(CHARLEN)} entity array-spec / character-length suffixes x {len(CHARLEN_SITES)} sites; transitions = declarations checked on their page; states = distinct row structures"),
         assumptions=[
             "literal payloads are wrapped in single quotes; a non-breaking blank is accepted for a blank",
             "the row structure for the neutral literal 'x' at the same site is the reference structure",
